@@ -82,7 +82,7 @@ func c05Run(c *mc.Ctx) {
 			writerBFS(c, "C05", WriterCfg{Kind: "default", FailAt: k, Sizes: sizes, Reverse: rev}, depth)
 		}
 		for k := 1; k <= 2; k++ {
-			for mode := 1; mode <= 2; mode++ {
+			for mode := 1; mode <= 3; mode++ {
 				if c.Mine() {
 					writerBFS(c, "C05", WriterCfg{Kind: "default", FailAt: k, SinkMode: mode, Sizes: []int{1, 3, 4097}, Reverse: rev}, depth)
 				}
